@@ -926,7 +926,10 @@ def _parse_phase_numpydoc_and_google(
                                         )
                                         if style is Style.google
                                         else {
-                                            "typ": scanned[return_tokens[0]][0][0],
+                                            # NumPy allows a named return, `name : type`
+                                            "typ": scanned[return_tokens[0]][0][0].rpartition(
+                                                " : "
+                                            )[2],
                                             # every line of the description, not only its first
                                             "doc": (
                                                 "\n" if parse_original_whitespace else " "
